@@ -43,6 +43,46 @@ class _NumpyProxy:
         return getattr(_np, k)
 
 
+# ---------------------------------------------------------------------------------------------------------
+# Global wrappers around numpy.random.{rand,random,random_sample,uniform}: installed when this module is imported
+# (mc.common.import_nasim imports it BEFORE nasim), so that code which binds the function early
+# (`from numpy.random import rand`) or reaches it through another alias still goes through the seam while one is
+# armed; with no armed seam they are the original functions.
+import os as _os
+import sys as _sys
+_ENVS_DIR = _os.sep + "nasim" + _os.sep + "envs" + _os.sep
+_ACTIVE = []          # stack of installed DrawSeam objects
+_ORIG = {}
+
+
+def _wrap(name):
+    orig = getattr(_np.random, name)
+    _ORIG[name] = orig
+
+    def w(*a, **k):
+        if _ACTIVE and _ACTIVE[-1].value is not None and _ACTIVE[-1].intercept_global \
+                and _ENVS_DIR in _sys._getframe(1).f_code.co_filename:     # only draws made by the dynamics
+            seam = _ACTIVE[-1]
+            if name == "rand":
+                return seam._draw(a)
+            if name == "uniform":
+                low = k.get("low", a[0] if len(a) > 0 else 0.0)
+                high = k.get("high", a[1] if len(a) > 1 else 1.0)
+                size = k.get("size", a[2] if len(a) > 2 else None)
+                return low + (high - low) * seam._draw(() if size is None else (size,))
+            size = k.get("size", a[0] if a else None)
+            return seam._draw(() if size is None else (size,))
+        return orig(*a, **k)
+    w.__name__ = name
+    return w
+
+
+if not getattr(_np.random, "_nasim_verif_wrapped", False):
+    for _n in ("rand", "random", "random_sample", "uniform"):
+        setattr(_np.random, _n, _wrap(_n))
+    _np.random._nasim_verif_wrapped = True
+
+
 class DrawSeam:
     """Scripted replacement for the uniform draw of the dynamics."""
 
@@ -53,6 +93,7 @@ class DrawSeam:
         self.calls = 0         # number of draws consumed since arm()
         self.other_calls = {}
         self._installed = []
+        self.intercept_global = True
         self._proxy = _NumpyProxy(self)
 
     def _draw(self, shape):
@@ -75,12 +116,16 @@ class DrawSeam:
             if hasattr(mod, "np"):
                 self._installed.append((mod, mod.np))
                 mod.np = self._proxy
+        if self not in _ACTIVE:
+            _ACTIVE.append(self)
         return self
 
     def uninstall(self):
         for mod, orig in self._installed:
             mod.np = orig
         self._installed = []
+        if self in _ACTIVE:
+            _ACTIVE.remove(self)
 
     def __enter__(self):
         return self.install()
